@@ -17,13 +17,13 @@ Conds(L) == IF L = 0 THEN CondsOut
 Inc(x) == SExpr(Asg(x, Bin("+", Id(x), Lit(N(1)))))
 WhileLoop(L, body) ==
   SBlock(<< SVar(Cnt(L), Lit(N(0))),
-            SWhile(Bin("<", Id(Cnt(L)), Lit(N(3))), SBlock(<<Inc(Cnt(L)), Tp, body>>)),
+            SWhile(Bin("<", Id(Cnt(L)), Lit(N(3))), SBlock(<<Inc(Cnt(L)), Tp, body, Tp>>)),
             Tp >>)
 ForLoop(L, v, body) ==
   LET x == Cnt(L)  hasInit == v % 2 = 1  hasCond == (v \div 2) % 2 = 1  hasIncr == (v \div 4) % 2 = 1
       b == SBlock( (IF hasIncr THEN <<>> ELSE <<Inc(x)>>)
                    \o (IF hasCond THEN <<>> ELSE <<SIf(Bin(">=", Id(x), Lit(N(3))), SBreak, None)>>)
-                   \o <<Tp, body>> )
+                   \o <<Tp, body, Tp>> )
       f == SFor(IF hasInit THEN SVar(x, Lit(N(0))) ELSE None,
                 IF hasCond THEN Bin("<", Id(x), Lit(N(3))) ELSE None,
                 IF hasIncr THEN Asg(x, Bin("+", Id(x), Lit(N(1)))) ELSE None, b)
@@ -45,6 +45,9 @@ Gen(d, L) ==
        \o Cross(<<0, 1, 2, 3, 4, 5, 6, 7>>, inl, LAMBDA v, x : [t |-> ForLoop(L + 1, v, x.t), c |-> "for" \o IntStr(v) \o "(" \o x.c \o ")"])
        \o Map(sub, LAMBDA x : [t |-> SBlock(<<x.t, Tp>>), c |-> "{" \o x.c \o ";T}"])
        \o Map(sub, LAMBDA x : [t |-> SBlock(<<Tp, x.t>>), c |-> "{T;" \o x.c \o "}"])
+       \o (IF L = 0 THEN <<>> ELSE     \* a jump of THIS loop executed after an inner construct has finished
+            Map(sub, LAMBDA x : [t |-> SBlock(<<x.t, SBreak, Tp>>), c |-> "{" \o x.c \o ";break}"])
+            \o Map(sub, LAMBDA x : [t |-> SBlock(<<x.t, SIf(Bin("==", Id(Cnt(L)), Lit(N(2))), SContinue, None), Tp>>), c |-> "{" \o x.c \o ";if-continue}"]))
 
 Stray == LET sig == { <<"break", SBreak>>, <<"continue", SContinue>>, <<"return", SReturn(None)>>, <<"returnv", SReturn(Lit(N(7)))>> } IN
          { [t |-> s[2], c |-> "stray_" \o s[1]] : s \in sig }
